@@ -14,7 +14,7 @@ func init() {
 		Rules: []*Rule{
 			{ID: "C04.pop-zero", Floor: 2, Clause: "on every normal return of PopFront/PopBack the slot that was read into the result has been overwritten with the zero value (same index, before the index moves)",
 				Run: ruleDequePopZero},
-			{ID: "C04.validate-first", Floor: 7, Clause: "in PopFront, PopBack, Item, Set and Shrink the explicit panic guard dominates every store and every element read; Front/Back/Item/Len contain no store",
+			{ID: "C04.validate-first", Floor: 7, Clause: "in PopFront, PopBack, Item, Set and Shrink the explicit panic guard dominates every store, every element read and every normal return (no early return above the argument check); Front/Back/Item/Len contain no store",
 				Run: ruleDequeValidateFirst},
 			{ID: "C04.index-discipline", Floor: 12, Clause: "every value stored to front/back is a constant, the other end, oldLen-1 in resize, or reduced modulo len(d.a); every index into d.a is front, back, the iterator's i, or reduced modulo len(d.a)",
 				Run: ruleDequeIndexDiscipline},
@@ -133,6 +133,13 @@ func ruleDequeValidateFirst(c *Ctx, r *R) {
 				if cal := staticCallee(&x.Call); cal != nil && fname(cal) == "resize" {
 					sensitive = true
 				}
+			case *ssa.Return:
+				if b == fn.Recover {
+					return // the synthetic exit of a function that defers (reached only after a recovered panic)
+				}
+				// a normal return, too, lies behind the check: an early "nothing to do" return placed above it makes the
+				// documented panic depend on the deque's state (Shrink(-1) returns silently when there is no spare room)
+				sensitive = true
 			}
 			if !sensitive {
 				return
@@ -312,7 +319,13 @@ func ruleDequeIndexDiscipline(c *Ctx, r *R) {
 						}
 					}
 				}
-				r.ok(okEnd, key, x.Pos(), f+" is assigned "+e.String()+", which is neither a constant, the other end, nor reduced modulo len(d.a): the index can leave the buffer")
+				if !okEnd {
+					// one slot with an explicit compare-and-wrap (if F == 0 { F = len(a)-1 } else { F-- }, ...)
+					if _, isWrap := wrapStep(x, f); isWrap {
+						okEnd = true
+					}
+				}
+				r.ok(okEnd, key, x.Pos(), f+" is assigned "+e.String()+", which is neither a constant, the other end, nor reduced modulo len(d.a) (nor one compare-and-wrap step): the index can leave the buffer")
 			case *ssa.IndexAddr:
 				fld, base, ok := rootField(x.X)
 				if !ok || fld != "a" || !isNamedType(base.Type(), "container/deque", "Deque") {
@@ -614,6 +627,16 @@ func ruleDequeStepDirection(c *Ctx, r *R) {
 			addr := argOf(st.Addr, di.calls)
 			if _, f, ok := storedField(addr); !ok || f != spec[1] {
 				continue
+			}
+			if len(di.calls) == 0 {
+				if wd, isWrap := wrapStep(st, spec[1]); isWrap {
+					// the step written as compare-and-wrap
+					found = true
+					if (wd > 0) != (spec[2] == "+") {
+						good = false
+					}
+					continue
+				}
 			}
 			for _, e := range sxAlternatives(symOf(st.Val, provEnv{chain: di.calls}), "a") {
 				inner, ok := e.modLen("a")
